@@ -1,7 +1,7 @@
 (** C07 - Print-then-parse is the identity on values; JSON texts mean what RFC 8259 says. (first stage)
     Model: Json/Write.v (mirrors jaq-json/src/write.rs), Json/Read.v (mirrors jaq-json/src/read.rs over a
     reference model of the hifijson lexer). *)
-From Coq Require Import List.
+From Coq Require Import List ZArith.
 From Coq Require Import Init.Byte.
 From JaqV Require Import Base.Bytes Json.Write Json.Read Proofs.JsonString.
 Import ListNotations.
@@ -29,6 +29,6 @@ Proof. exact bytes_step. Qed.
 Print Assumptions byte_escape_roundtrip_bytes.
 
 Theorem bytestring_roundtrip : forall s n rest, (length s <= n)%nat ->
-  parse_string (S n) true (flat_map (write_byte false) s ++ zb 34 :: rest) [] = POk s rest.
+  parse_string (S n) true (flat_map (write_byte false) s ++ zb 34%Z :: rest) [] = POk s rest.
 Proof. intros. apply (bytes_roundtrip_go s n rest []). assumption. Qed.
 Print Assumptions bytestring_roundtrip.
